@@ -48,7 +48,7 @@ def shapes(maxnodes):
 
 
 EDGE = ('plain', 'gen')
-MARK = ('none', 'cancel', 'stop', 'raise', 'nohandler')
+MARK = ('none', 'cancel', 'stop', 'raise', 'nohandler', 'precancel')
 
 
 def programs(tier):
@@ -70,7 +70,7 @@ def programs(tier):
                 if full:
                     variants.append('double')
                     variants.append('again')     # the same root fired a second time after the first tree has drained completely
-                    variants += [('nested', i) for i in range(1, n) if marks[i - 1] != 'cancel']
+                    variants += [('nested', i) for i in range(1, n) if marks[i - 1] not in ('cancel', 'precancel')]
                 for v in variants:
                     yield par, edges, (rootmark,) + marks, v
 
@@ -163,6 +163,8 @@ def build(program):
             o = {}
             if marks[j] == 'cancel':
                 o['cancel'] = True
+            if marks[j] == 'precancel':
+                o['precancel'] = True
             if isinstance(variant, tuple) and variant[1] == j:
                 o['complete'] = True
             return ('fire', 'n%d' % j, o)
@@ -294,7 +296,7 @@ def _work(part, nparts, payload):
         st.outcome(tuple(x for x in w.log if x[0] in ('obs', 'enter', 'step')))
         if len(program[0]) > 2 or any(m != 'none' for m in program[2]) or 'gen' in program[1]:
             st.interesting(program)
-        if 'cancel' in program[2]:
+        if 'cancel' in program[2] or 'precancel' in program[2]:
             st.counters['programs_with_cancelled_descendant'] += 1
         if 'nohandler' in program[2]:
             st.counters['programs_with_handlerless_descendant'] += 1
